@@ -84,7 +84,11 @@ func (y *c05Sys) Root() *c05State {
 	return &c05State{ctx: w.Ctx, w: w, sys: y, proposer: "proposer", challenger: "challenger"}
 }
 
-func (y *c05Sys) Digest(s *c05State) [32]byte { return s.w.Digest(s.ctx) }
+// the model is part of the state key: a change that turns an operation into a no-op on the stores must
+// not make the successor look like an already visited state (its model differs, and Check has to see it)
+func (y *c05Sys) Digest(s *c05State) [32]byte {
+	return s.w.Digest(s.ctx, []byte(fmt.Sprint(s.outs, s.outs2, s.proposer, s.challenger)))
+}
 
 func (s *c05State) addrOf(name string) string {
 	if name == "gov" {
